@@ -46,6 +46,7 @@ int main(int argc, char** argv) {
         { "join-queueing", 10, [](Scn& s, tbb::task_arena& A) { switch (s.seed % 3) { case 0: run_join_queueing<2>(s, A); break; case 1: run_join_queueing<3>(s, A); break; default: run_join_queueing<4>(s, A); } } },
         { "join-key", 10, [](Scn& s, tbb::task_arena& A) { if (s.seed & 1) run_join_key<2>(s, A); else run_join_key<3>(s, A); } },
         { "limiter", 12, run_limiter },
+        { "limiter_batch", 6, run_limiter_batch },
         { "overwrite", 6, [](Scn& s, tbb::task_arena& A) { run_single_value<fl::overwrite_node<int>>(s, A, false); } },
         { "write-once", 4, [](Scn& s, tbb::task_arena& A) { run_single_value<fl::write_once_node<int>>(s, A, true); } },
         { "broadcast", 5, run_broadcast }, { "split", 3, run_split }, { "indexer", 3, run_indexer },
@@ -126,7 +127,7 @@ int main(int argc, char** argv) {
     for (auto& kv : per_class_nt) R.stat("nontrivial_" + kv.first, kv.second);
 #define ST_(x) R.stat(#x, ST.x.load())
     ST_(q_released); ST_(q_reserved); ST_(seq_dups_rejected); ST_(seq_accepted); ST_(prio_gated); ST_(prio_pairs_checked); ST_(resv_tuples); ST_(resv_competitor_items);
-    ST_(jq_tuples); ST_(jk_tuples); ST_(jk_dup_rejected); ST_(jk_unmatched); ST_(lim_inline_decs); ST_(lim_ext_decs); ST_(lim_at_threshold); ST_(lim_rejected_puts); ST_(lim_delivered);
+    ST_(jq_tuples); ST_(jk_tuples); ST_(jk_dup_rejected); ST_(jk_unmatched); ST_(lim_inline_decs); ST_(lim_ext_decs); ST_(lim_at_threshold); ST_(lim_rejected_puts); ST_(lim_delivered); ST_(limb_delivered); ST_(limb_batches); ST_(limb_multi_batches); ST_(limb_at_threshold); ST_(limb_inline_batches);
     ST_(ow_late); ST_(ow_values); ST_(wo_rejected); ST_(bc_msgs); ST_(sp_msgs); ST_(ix_msgs); ST_(ring_ops); ST_(ring_wraps); ST_(ring_get_while_reserved_refused); R.stat("task_puts", g_task_puts.load());
     R.stat("buffer_grows_beyond_initial", g_grows.load()); R.stat("buffer_grows_with_reservation_outstanding", g_grows_reserved.load()); R.stat_max("max_buffer_size", g_max_grow.load());
     R.stat("hook_delays", (long long)perturb().delays.load());
